@@ -15,6 +15,11 @@ package recovery
 //@   requires [grid] reader.DriveIsRegular ==> pipes.RecordSize >= 1 && record >= 0 && block >= 0 && block < pipes.RecordSize
 //@   loop 1 invariant [position] trBroken[tr] || (0 <= block && block < pipes.RecordSize && 512*(pipes.RecordSize*record+block) == drivePos[reader.Drive] + trSkip[tr] && trSrc(tr) == reader.Drive && trUnread[tr] == 0)
 //@   at call indexHeader#1 assert [header-position] 512*(pipes.RecordSize*arg_record+arg_block) == hdrStart(arg_hdr) && 0 <= arg_block && arg_block < pipes.RecordSize
+//@   property C10
+//@   at call Seek#3 assert [resync-makes-progress] arg_offset >= curr && arg_whence == 0
+//@   property C01
+//@   loop 1 invariant [replay-position] trBroken[tr] || (0 <= block && block < pipes.RecordSize && 512*(pipes.RecordSize*record+block) == drivePos[reader.Drive] + trSkip[tr] && trSrc(tr) == reader.Drive && trUnread[tr] == 0)
+//@   at call indexHeader#1 assert [every-record-indexed-at-its-own-position] 512*(pipes.RecordSize*arg_record+arg_block) == hdrStart(arg_hdr) && 0 <= arg_block && arg_block < pipes.RecordSize
 //@   property C06
 //@   at call Seek#3 assert [resync-forward] arg_offset >= curr && arg_offset - curr < 512 && arg_offset % 512 == 0 && arg_whence == 0
 //@   ensures [a-failed-replay-keeps-what-it-indexed] purges <= old(purges) + 1
